@@ -50,6 +50,7 @@ type input struct {
 	All     bool      `json:"all,omitempty"`
 	Force   bool      `json:"force,omitempty"`
 	Runs    int       `json:"runs,omitempty"`
+	Probe   bool      `json:"probe,omitempty"` // see childSpec.Probe
 
 	// enabled
 	G      []byte `json:"g,omitempty"`
@@ -251,7 +252,7 @@ func runModule(inp *input, scratch string) core.Result {
 		res.Notes = append(res.Notes, "C06 harness: no entrypoint")
 		return res
 	}
-	spec := childSpec{Dir: root, Globals: inp.Globals, Gens: inp.Gens, All: inp.All, Force: inp.Force,
+	spec := childSpec{Dir: root, Globals: inp.Globals, Gens: inp.Gens, All: inp.All, Force: inp.Force, Probe: inp.Probe,
 		Script: map[string]scriptEntry{}, Out: filepath.Join(scratch, "out.json")}
 	if spec.Globals == nil {
 		spec.Globals = []kv{}
@@ -494,6 +495,22 @@ func runModule(inp *input, scratch string) core.Result {
 				if t.Kind == "generic" {
 					feat["generic"] = true
 				}
+				if t.Kind == "generic" && t.TParamLine {
+					feat["type_param_on_its_own_line"] = true
+				}
+				if t.LineFile != "" {
+					feat["line_directive_above_declaration"] = true
+					if len(t.Tags) > 0 {
+						feat["line_directive_above_tagged_declaration"] = true
+					}
+				}
+			}
+			for _, fn := range f.Funcs {
+				for _, l := range fn.Locals {
+					if l.LineFile != "" {
+						feat["line_directive_above_declaration"] = true
+					}
+				}
 			}
 		}
 	}
@@ -509,6 +526,9 @@ func runModule(inp *input, scratch string) core.Result {
 	}
 	if inp.All {
 		feat["all"] = true
+	}
+	if inp.Probe {
+		feat["generator_asks_doc_of_type_params_and_locals"] = true
 	}
 	if len(loaded) > 1 {
 		feat["several_packages"] = true
